@@ -138,21 +138,25 @@ def canon_text(text):
 
 
 class Module:
-    def __init__(self, name, path, source):
+    def __init__(self, name, path, source, tree=None):
         self.name = name  # short name: 'futures', '__init__'
         self.path = path  # path relative to repo: s3transfer/futures.py
         self.source = source
-        self.tree = canonicalise(ast.parse(source, filename=path))
+        self.tree = canonicalise(tree if tree is not None else ast.parse(source, filename=path))
         self.imports = {}  # local name -> (module short name or external dotted, attr or None)
         self.classes = {}
         self.functions = {}
         self.consts = {}  # module-level NAME -> expr node
+        # Load()/Store()/operator nodes are process-wide singletons in CPython: never annotate them
+        singletons = (ast.expr_context, ast.operator, ast.boolop, ast.unaryop, ast.cmpop)
         for parent in ast.walk(self.tree):
             for child in ast.iter_child_nodes(parent):
-                child._parent = parent
+                if not isinstance(child, singletons):
+                    child._parent = parent
         self.tree._parent = None
         for n in ast.walk(self.tree):
-            n._module = self
+            if not isinstance(n, singletons):
+                n._module = self
 
 
 class ClassInfo:
@@ -326,27 +330,47 @@ def kwarg(call, name):
 
 
 class Program:
-    def __init__(self, sources, repo='/repo'):
+    def __init__(self, sources, repo='/repo', inline='unknown'):
         """sources: dict relpath -> source text (relpath like s3transfer/futures.py)."""
         self.repo = repo
+        self.sources = sources
+        self.inline_mode = inline
         self.modules = {}
         self.classes = {}  # qualname -> ClassInfo
         self.classes_by_name = {}  # bare -> [ClassInfo]
         self.functions = {}  # qualname -> FuncInfo
         self.digest = hashlib.sha256()
+        trees, rels = {}, {}
         for rel in sorted(sources):
             src = sources[rel]
             self.digest.update(rel.encode() + b'\0' + src.encode() + b'\0')
             name = os.path.splitext(os.path.basename(rel))[0]
             try:
-                m = Module(name, rel, src)
+                trees[name] = ast.parse(src, filename=rel)
             except SyntaxError as e:
                 raise AnalysisError(f'cannot parse {rel}: {e}')
-            self.modules[name] = m
+            rels[name] = rel
+        # de-renaming of private attributes/methods, then de-extraction of helpers that are
+        # not in the frozen function inventory
+        from .inline import Inliner
+        from .rename import derename
+        self.rename_notes = derename(trees)
+        self.inliner = Inliner(trees, inline)
+        self.inliner.run()
+        for name, rel in rels.items():
+            self.modules[name] = Module(name, rel, sources[rel], trees[name])
         for m in self.modules.values():
             self._index_module(m)
         self._link_classes()
         self._collect_self_attrs()
+
+    def expanded(self):
+        """The fully expanded view: same sources, every private non-overridden same-class
+        helper inlined into its callers (definitions kept)."""
+        sh = self.__dict__.setdefault('_shared', {})
+        if 'expanded' not in sh:
+            sh['expanded'] = Program(self.sources, self.repo, inline='all')
+        return sh['expanded']
 
     # -- loading ---------------------------------------------------------
     @classmethod
